@@ -187,6 +187,9 @@ class FieldSym(AbstractValue):
             raise AnalysisError(f"% {other!r} on a symbolic field element")
         o = self._lift(other)
         if o is None:
+            if op == "mul" and getattr(other, "kind", None) == "FQP" and hasattr(other, "mc_raw"):
+                from .tower import TowerSym      # concrete tower constant times a symbolic scalar
+                return TowerSym(other.v, other.mc_raw(), other.p, other.cls).v_binop("mul", self, False, it)
             return NotImplemented
         a, b = (o, self.r) if reflected else (self.r, o)
         if op == "add":
